@@ -184,17 +184,3 @@ def execute(case, stats, log):
 
 
 candidates = c09.candidates
-
-
-def finding_matches(case, result, fd):
-    if fd["id"] == "F8":
-        info = result.get("info") or {}
-        shapes = info.get("shapes") or []
-        if not shapes or any(d != 1 for s_ in shapes for d in s_):
-            return False  # a block with a real extent is data, not a reduced meta
-        stacks = info.get("stacks") or []
-        via_partial_reduce = any(any(fr.startswith("_reduction.py") and fr.endswith(":_meta") for fr in st) for st in stacks)
-        via_meta_propagation = "PartialReduce" in (info.get("nonempty_meta_nodes") or []) and any(
-            any(fr.startswith("_utils.py") and fr.endswith(":compute_meta") for fr in st) for st in stacks)
-        return bool(via_partial_reduce or via_meta_propagation)
-    return False
